@@ -43,56 +43,7 @@ def budgets(tier):
 
 # --- independent BTP-U codec ----------------------------------------------------------------
 
-def ref_encode(msg):
-    ''' msg: {'type': int, 'hints': [[hint_type, hex], ...], 'body': hex} '''
-    hints = b''
-    for idx, (htype, data) in enumerate(msg.get('hints', [])):
-        more = 1 if idx < len(msg['hints']) - 1 else 0
-        raw = bytes.fromhex(data)
-        hints += bytes([(htype << 1) | more, len(raw)]) + raw
-    body = bytes.fromhex(msg['body'])
-    length = len(hints) + len(body)
-    flags = 0x8 if msg.get('hints') else 0
-    word = (flags << 20) | length
-    return bytes([msg['type']]) + struct.pack('>I', word)[1:] + hints + body
-
-
-def ref_parse(frame):
-    ''' :return: list of messages (same dict form); raises ValueError when malformed. '''
-    out = []
-    pos = 0
-    while pos < len(frame):
-        if frame[pos] == 0:
-            if any(frame[pos:]):
-                raise ValueError('non-zero octets inside the zero padding')
-            break
-        if pos + 4 > len(frame):
-            raise ValueError('truncated message header')
-        mtype = frame[pos]
-        word = struct.unpack('>I', b'\x00' + frame[pos + 1:pos + 4])[0]
-        flags = word >> 20
-        length = word & 0xFFFFF
-        pos += 4
-        if pos + length > len(frame):
-            raise ValueError('message length %d overruns the frame' % length)
-        chunk = frame[pos:pos + length]
-        pos += length
-        hints = []
-        hpos = 0
-        if flags & 0x8:
-            while True:
-                if hpos + 2 > len(chunk):
-                    raise ValueError('truncated hint')
-                first, hlen = chunk[hpos], chunk[hpos + 1]
-                hpos += 2
-                if hpos + hlen > len(chunk):
-                    raise ValueError('hint overruns the message')
-                hints.append([first >> 1, chunk[hpos:hpos + hlen].hex()])
-                hpos += hlen
-                if not first & 1:
-                    break
-        out.append({'type': mtype, 'flags': flags, 'hints': hints, 'body': chunk[hpos:].hex()})
-    return out
+from vlib.refbtpu import ref_encode, ref_parse  # noqa: E402,F401  (independent BTP-U codec)
 
 
 def repo_to_ref(pkt):
